@@ -75,12 +75,18 @@ def ob_merge(dt1, dt2, n, m, second=None):
     bounds; loop terminates within n+m iterations; no exception escapes."""
     ks, out, (A, ac, la, pa), (B, bc, lb, pb) = run_dist(dt1, dt2, n, m)
     cv = cutvars(ks)
-    if set(cv) != {'N', 'M', 'u'} or any(len(v) != 1 for v in cv.values()):
+    if set(cv) != {'N', 'M', 'u'} or len({len(v) for v in cv.values()}) != 1:
         raise CannotEncode(f'cut variables {list(cv)}')
-    (Nf, Nd, g), (Mf, Md, _), (uf, ud, _) = cv['N'][0], cv['M'][0], cv['u'][0]
     c = J.match_count(ac, la, bc, lb)
     LA, LB = z3.SignExt(32, la), z3.SignExt(32, lb)
-    defs_wrong = lor(Nd.z3() != LA, Md.z3() != LB, ud.z3() != LA + LB - c)
+    # the kernel may be entered from several call sites / alternatives (e.g. after a conditional cast): every instance,
+    # under its own guard, must see (N, M, u) = (|a|, |b|, |a or b|) of the caller's arrays
+    inst_wrong, guards_ = [], []
+    for (Nf, Nd, gi), (Mf, Md, _), (uf, ud, _) in zip(cv['N'], cv['M'], cv['u']):
+        inst_wrong.append(land(gi, lor(Nd.z3() != LA, Md.z3() != LB, ud.z3() != LA + LB - c)))
+        guards_.append(gi)
+    g = lor(*guards_)
+    defs_wrong = lor(*inst_wrong)
     # paths on which the kernel is not reached at all (an early return in the Python layer): there the returned value
     # itself must be the spec distance of the two arrays
     not_reached = lnot(g) if g is not True else False
@@ -94,7 +100,7 @@ def ob_merge(dt1, dt2, n, m, second=None):
             early_wrong = lor(out.raised, z3.Not(z3.fpEQ(r64, spec64)))
         else:
             early_wrong = True
-    viol = lor(land(g, defs_wrong), land(not_reached, early_wrong))
+    viol = lor(defs_wrong, land(not_reached, early_wrong))
     pre = pa + pb
     return decide(f'merge {dt1}x{dt2} n<={n} m<={m}', pre, viol, ks, arrays_extract(ac, la, bc, lb, dt1, dt2), TO, second=second, unwind_is_violation=True,
                   reach_goals=[('both-nonempty-with-common', z3.And(la == n, lb == m, c >= 1) if n and m else True),
